@@ -21,6 +21,7 @@ ROWS = {
 Z3 = {'mix3': True, 'thin10': True, 'bigid': True, 'tri2d': False, 'quad2d': False, 'tet': True, 'tetmix': True, 'mixed': True, 'bad5': True}
 SCOLS = ['S11', 'S22', 'S33', 'S12', 'S13', 'S23']
 DCOLS = ['dx', 'dy', 'dz']
+LC2COLS = [c + '_lc2' for c in SCOLS]       # the stress of a second load case in the same frame, under other column names
 
 
 def coord(k, n):
@@ -31,6 +32,10 @@ def coord(k, n):
 
 def sval(k, r, c):      # arbitrary distinguishable doubles per (mesh, row, column)
     return 1000.0 * (r + 1) + c + 0.3 + len(k) * 1e-3
+
+
+def sval2(k, r, c):
+    return -500.0 * (r + 1) - 3 * c - 0.9
 
 
 def dval(k, r, c):
@@ -45,6 +50,8 @@ def mesh_frame(k):
         d[name] = [sval(k, r, c) for r in range(len(rows))]
     for c, name in enumerate(DCOLS):
         d[name] = [dval(k, r, c) for r in range(len(rows))]
+    for c, name in enumerate(LC2COLS):
+        d[name] = [sval2(k, r, c) for r in range(len(rows))]
     return pd.DataFrame(d, index=idx)
 
 
@@ -65,6 +72,10 @@ def execute(hist, path):
                 if v == 'TEMP':
                     from pylife.vmap.vmap_structures import VariableLocations
                     ex.add_variable(st, g, v, mesh_frame(k), column_names=['dx'], location=VariableLocations.NODE)
+                elif v == 'STRESS_NOCOLS':       # the known variable from a frame that lacks its columns
+                    ex.add_variable(st, g, 'STRESS_CAUCHY', mesh_frame(k).drop(columns=SCOLS))
+                elif v == 'STRESS_LC2':          # the known variable written from explicitly named other columns
+                    ex.add_variable(st, g, 'STRESS_CAUCHY', mesh_frame(k), column_names=LC2COLS)
                 else:
                     ex.add_variable(st, g, v, mesh_frame(k))
             outcomes.append('ok')
@@ -89,9 +100,17 @@ def project(path, geoms_expected):
         for s in imp.node_sets(g):
             sub = imp.make_mesh(g).filter_node_set(s).to_frame()
             info['nsets'][s] = sorted(set(int(n) for n in sub.index.get_level_values('node_id')))
+            info.setdefault('nset_rows', {})[s] = [tuple(int(x) for x in t) for t in sub.index]
         for s in imp.element_sets(g):
             sub = imp.make_mesh(g).filter_element_set(s).to_frame()
             info['esets'][s] = sorted(set(int(n) for n in sub.index.get_level_values('element_id')))
+            info.setdefault('eset_rows', {})[s] = [tuple(int(x) for x in t) for t in sub.index]
+            for ns in imp.node_sets(g):      # both filters one after the other: the intersection, in mesh order
+                try:
+                    both = imp.make_mesh(g).filter_node_set(ns).filter_element_set(s).to_frame()
+                    info.setdefault('chain_rows', {})[(ns, s)] = [tuple(int(x) for x in t) for t in both.index]
+                except Exception as ex:
+                    info.setdefault('chain_rows', {})[(ns, s)] = 'raised %s' % type(ex).__name__
         with h5py.File(path, 'r') as f:
             gg = f['/VMAP/GEOMETRY/%s' % g]
             info['counters'] = (int(gg['POINTS'].attrs['MYSIZE']), int(gg['ELEMENTS'].attrs['MYSIZE']), int(gg['GEOMETRYSETS'].attrs['MYSIZE']), len(gg['GEOMETRYSETS'].keys()))
@@ -120,17 +139,27 @@ def expected(st):
         for kind, name, members in st['sets'][g]:
             nset_count += 1
             (nsets if kind == 0 else esets)[name] = sorted(set(members))     # a later set with the same name replaces the earlier one in the reader's dict
-        exp['geoms'][g] = {'index': idx, 'repeatable': True, 'points': list(rec['points']), 'coords': [list(coord(k, n)) for n in rec['points']],
+        nrows = {name: [r for r in idx if r[1] in set(m)] for name, m in nsets.items()}
+        erows = {name: [r for r in idx if r[0] in set(m)] for name, m in esets.items()}
+        extra = {}
+        if nrows:
+            extra['nset_rows'] = nrows
+        if erows:
+            extra['eset_rows'] = erows
+            if nrows:
+                extra['chain_rows'] = {(a, b): [r for r in idx if r[1] in set(nsets[a]) and r[0] in set(esets[b])] for a in nsets for b in esets}
+        exp['geoms'][g] = {**extra, 'index': idx, 'repeatable': True, 'points': list(rec['points']), 'coords': [list(coord(k, n)) for n in rec['points']],
                            'nsets': nsets, 'esets': esets, 'counters': (len(rec['points']), len(rec['elems']), nset_count, nset_count)}
     for x in st['vars']:
         k = x['mesh']
         gidx = exp['geoms'][x['g']]['index']
-        if x['v'] == 'STRESS_CAUCHY':
-            m = {tuple(key): [sval(k, r - 1, c) for c in range(6)] for key, r in x['data']}
+        if x['v'] in ('STRESS_CAUCHY', 'STRESS_LC2'):
+            fv = sval if x['v'] == 'STRESS_CAUCHY' else sval2
+            m = {tuple(key): [fv(k, r - 1, c) for c in range(6)] for key, r in x['data']}
         else:
             per_node = {n: r for n, r in x['data']}
             m = {key: [dval(k, per_node[key[1]] - 1, c) for c in range(1 if x['v'] == 'TEMP' else 3)] for key in gidx if key[1] in per_node}
-        exp['vars'][(x['st'], x['g'], x['v'])] = m
+        exp['vars'][(x['st'], x['g'], 'STRESS_CAUCHY' if x['v'] == 'STRESS_LC2' else x['v'])] = m
     return exp
 
 
@@ -169,9 +198,9 @@ def _replay(args):
                 continue
             bad = False
             for g in exp['geoms']:
-                for key in ('index', 'points', 'coords', 'nsets', 'esets', 'counters', 'repeatable'):
-                    if got['geoms'][g][key] != exp['geoms'][g][key]:
-                        viol.append(('geometry %s read back differs in %s' % (g, key), case, exp['geoms'][g][key], got['geoms'][g][key]))
+                for key in ('index', 'points', 'coords', 'nsets', 'esets', 'counters', 'repeatable', 'nset_rows', 'eset_rows', 'chain_rows'):
+                    if got['geoms'][g].get(key) != exp['geoms'][g].get(key):
+                        viol.append(('geometry %s read back differs in %s' % (g, key), case, exp['geoms'][g].get(key), got['geoms'][g].get(key)))
                         bad = True
                         break
             if bad:
@@ -235,6 +264,23 @@ def run(chk):
                 chk.violation(what, case, exp, got, part='replay')
         chk.evals(tot)
         chk.cov['traces_validated_against_impl'] += tot
+        os.remove(res.dump_path)
+    # histories that start from a file already holding two geometries (prefix), three more calls: failing calls next to other geometries' content
+    res = tlc.run(TLA, os.path.join(SPEC, 'vmap', 'MC_Vmap_two.cfg'), dump=True, timeout=3000, heap='12g')
+    chk.tlc('MC_Vmap_two.cfg', res, 'histories with the prefix add_geometry(A, tri2d); add_geometry(B, quad2d) and three more calls')
+    if res.violated:
+        chk.machinery.append('model property %s violated: %s' % (res.violated, [s_.get('hist') for s_ in res.trace[-1:]]))
+    if res.dump_path and os.path.exists(res.dump_path):
+        tot = 0
+        for n, nontriv, viol, samples in par.pmap(_replay, [(p, 100 + i, 12 if quick else 60, chk.seed) for i, p in enumerate(par.split_dump(res.dump_path, 64))], chunksize=1):
+            tot += n
+            for x in nontriv:
+                chk.nontrivial(x)
+            for what, case, exp, got in viol:
+                chk.violation(what, case, exp, got, part='replay_two_geometries')
+        chk.evals(tot)
+        chk.cov['traces_validated_against_impl'] += tot
+        chk.part('replay_two_geometries', histories=tot)
         os.remove(res.dump_path)
     xy_only_probe(chk, fs)
     chk.cov['rule'] = ('TLC explores every call history up to MaxDepth over 2 geometry names x 6 catalogue meshes (2-D tri/quad, tet4 with gapped descending ids, tet4 with interleaved rows, mixed tet4+wedge6, an '
